@@ -1,5 +1,5 @@
 SPECIFICATION Spec
-CONSTANTS DestructFirst = TRUE  StopMayHappen = TRUE
+CONSTANTS Variant = "ok"
 INVARIANTS NoUseAfterFree ResumedAtMostOnce ResumedAtEnd CallbackNeverSeesZero NoDeadlock
 PROPERTY Termination
 CHECK_DEADLOCK FALSE
